@@ -537,7 +537,18 @@ def shape_tokens(avail):
     return [str(len(avail))] + [str(a) for a in avail]
 
 
-def module_case(ev, blk, prev, cur, lag):
+def tsf_map(seq):
+    """timeStepFactor of every variable / bias defined in a history, by dump description"""
+    m = {}
+    for e in seq["events"]:
+        if e["op"] in ("addcv", "addbias"):
+            ob = e["cv"] if e["op"] == "addcv" else e["bias"]
+            t = re.search(r"timeStepFactor\s+(\d+)", ob["conf"])
+            m[("colvar_" if e["op"] == "addcv" else "bias_") + ob["name"]] = int(t.group(1)) if t else 1
+    return m
+
+
+def module_case(ev, blk, prev, cur, lag, tsfs=None):
     """the model's module-level operation that corresponds to a history event, as a driver line, or None.
     Returns (line, compare_feature_states)"""
     if not D.encodable(prev) or not D.encodable(cur):
@@ -553,6 +564,16 @@ def module_case(ev, blk, prev, cur, lag):
         return (head + "deletecolvar %d" % k + tail, True) if k is not None else None
     if op == "reset":
         return (head + "reset" + tail, True)
+    if op == "step" and tsfs is not None:
+        # the dependency part of calc_colvars: awake/asleep scheduling of biases, then variables, with timeStepFactor > 1
+        st = re.search(r"(?m)^STEP (\d+) err=ok", blk)
+        if not st or any(o["cls"] in (0, 1) and o["desc"] not in tsfs for o in prev["objs"]):
+            return None
+        ots = [(i, tsfs[o["desc"]]) for i, o in enumerate(prev["objs"]) if o["cls"] == 0] + \
+              [(i, tsfs[o["desc"]]) for i, o in enumerate(prev["objs"]) if o["cls"] == 1]
+        if all(t == 1 for _, t in ots):
+            return None
+        return (head + "sched %s %d %s" % (st.group(1), len(ots), " ".join("%d %d" % x for x in ots)) + tail, True)
     if op == "set" and "SCRIPT err=ok" in blk:
         k = obj_index(prev, ("colvar_" if ev["kind"] == "colvar" else "bias_") + ev["name"])
         if k is None or ev["fid"] >= len(prev["objs"][k]["fs"]):
@@ -862,6 +883,7 @@ def check(run):
         prev = {"objs": [], "atoms": {}}
         prev_bad = set()
         tainted = False
+        tsfs = tsf_map(seq)
         nops, live_b = [], {}          # naming model: operations, and the unnamed biases believed alive (name -> (kind index, rank))
         for i, (ev, blk) in enumerate(zip(seq["events"], blocks)):
             if ev["op"] == "addbias":
@@ -889,7 +911,7 @@ def check(run):
             part = {"id": seq["id"], "samestep": seq["samestep"], "events": seq["events"][:i + 1]}
             # model replay of the event (deletion of a bias / of a variable with its biases, reset, script set of a
             # feature; structure only for definitions)
-            mc = module_case(ev, blk, prev, cur, lag)
+            mc = module_case(ev, blk, prev, cur, lag, tsfs)
             if mc is not None:
                 mlines.append(mc[0])
                 mexpect.append(("mop", ev["op"], cur, part, mc[1], None))
